@@ -215,11 +215,11 @@ pub fn gen_opaque(rng: &mut Rng, max: usize) -> Vec<u8> {
 pub fn gen_rdata_for(rng: &mut Rng, rtype: u16, name_gen: &mut dyn FnMut(&mut Rng) -> Name) -> RData {
     match rtype {
         T_A => {
-            let b = rng.bytes(4);
+            let b = gen_addr(rng, 4);
             RData::A([b[0], b[1], b[2], b[3]])
         }
         T_AAAA => {
-            let b = rng.bytes(16);
+            let b = gen_addr(rng, 16);
             let mut a = [0u8; 16];
             a.copy_from_slice(&b);
             RData::AAAA(a)
@@ -249,16 +249,49 @@ pub fn gen_rdata_for(rng: &mut Rng, rtype: u16, name_gen: &mut dyn FnMut(&mut Rn
 
 pub const REC_TYPES: &[u16] = &[
     T_A, T_A, T_A, T_AAAA, T_AAAA, T_NS, T_NS, T_CNAME, T_CNAME, T_PTR, T_MX, T_MX, T_SOA, T_SOA, T_DNAME,
-    T_TXT, T_TXT, T_DS, 33, 99, 257, 65280,
+    T_TXT, T_TXT, T_DS, 33, 99, 257, 65280, 0, 255, 250, 46, 47, 35, 65535, 3, 4, 7, 14, 17, 18, 21, 36,
 ];
+
+/// TTL values with special bit patterns as well as arbitrary ones.
+pub fn gen_ttl(rng: &mut Rng) -> u32 {
+    match rng.below(6) {
+        0 => *rng.pick(&[0u32, 1, 0x7fff_ffff, 0x8000_0000, 0xffff_ffff, 0x0000_8000, 0x0100_0000, 300, 86400]),
+        _ => rng.next_u64() as u32,
+    }
+}
+
+/// Addresses with special values as well as arbitrary ones (n = 4 or 16).
+pub fn gen_addr(rng: &mut Rng, n: usize) -> Vec<u8> {
+    if rng.chance(1, 5) {
+        if n == 4 {
+            return rng.pick(&[[0u8, 0, 0, 0], [255, 255, 255, 255], [127, 0, 0, 1], [0, 0, 0, 1], [192, 0, 2, 255]]).to_vec();
+        }
+        let mut v = vec![0u8; 16];
+        match rng.below(4) {
+            0 => {}
+            1 => v[15] = 1,
+            2 => {
+                v[10] = 0xff;
+                v[11] = 0xff;
+                v[12] = 1;
+                v[13] = 2;
+                v[14] = 3;
+                v[15] = 4;
+            }
+            _ => v = vec![0xff; 16],
+        }
+        return v;
+    }
+    rng.bytes(n)
+}
 
 pub fn gen_rec(rng: &mut Rng, name_gen: &mut dyn FnMut(&mut Rng) -> Name) -> Rec {
     let rtype = *rng.pick(REC_TYPES);
     Rec {
         name: name_gen(rng),
         rtype,
-        class: if rng.chance(1, 12) { *rng.pick(&[3u16, 4, 254, 255, 0]) } else { 1 },
-        ttl: rng.next_u64() as u32,
+        class: if rng.chance(1, 10) { *rng.pick(&[3u16, 4, 254, 255, 0, 2, 65535]) } else { 1 },
+        ttl: gen_ttl(rng),
         rdata: gen_rdata_for(rng, rtype, name_gen),
     }
 }
